@@ -521,3 +521,32 @@ def _star_tag_fields(ctx, call, P, n):
         else:
             pos += 1
     return out
+
+
+def feasible_counts(p):
+    """field counts n for which the tests on len(<option text>.split(',')) passed on path p are consistent
+    (None when the path tests no such length)"""
+    lens = set()
+    for t, b in p.conds:
+        if isinstance(b, bool):
+            for mo in re.finditer(r"len\((args\.\w+(\[_k\d+\])?(\.strip\(\))?\.split\(','\))\)", t):
+                lens.add(mo.group(0))
+    if not lens:
+        return None
+    out = set()
+    for n_ in range(0, MAXN + 1):
+        env = {l_: n_ for l_ in lens}
+        ok = True
+        for t, b in p.conds:
+            if not isinstance(b, bool) or not any(l_ in t for l_ in lens):
+                continue
+            try:
+                v = _val(ast.parse(t, mode='eval').body, env)
+            except (Undecided, SyntaxError, TypeError):
+                continue
+            if bool(v) != b:
+                ok = False
+                break
+        if ok:
+            out.add(n_)
+    return out
